@@ -39,6 +39,27 @@ def fam_c01(rng, n, tag="c01", duration=5000, windows=(1, 2, 3, 8, 8, 12), expec
         out.append(s)
     return out
 
+def fam_edge(rng, n, tag="edge"):
+    """sessions that live at the edge of the prediction window: the one-way latency is about
+    `window` frames, inputs change every frame (so most predictions are wrong), small windows,
+    dense and sparse saving; stalls at the threshold alternate with shallow rollbacks"""
+    out = []
+    for i in range(n):
+        w = rng.choice([1, 2, 2, 3, 3, 4])
+        n_peers = rng.choice([2, 2, 3])
+        s = Scen("%s_%d" % (tag, i), players=n_peers, window=w, lat=max(0, 16 * w + rng.choice([-12, -4, 0, 6, 14, 30])),
+                 seed=rng.randrange(1 << 30), sparse=rng.choice([0, 0, 1]), pred=rng.choice(["repeat", "default"]),
+                 inputrun=rng.choice([1, 1, 2]), expect=["nodisconnect"])
+        _topology(rng, s, n_peers, n_peers, delays=(0, 0, 1))
+        ids = list(range(1, n_peers + 1))
+        if rng.random() < 0.5:
+            _random_links(rng, s, ids, maxfaults=12, upto=250, kinds=("delay", "drop"))
+        for p in ids:
+            a = rng.randrange(600, 2500)
+            s.ticks(p, rng.randrange(0, 16), 4000, rng.choice([16, 16, 17]), skip=[(a, a + rng.choice([0, 40, 120]))])
+        out.append(s)
+    return out
+
 def fam_long(rng, n, tag="long", duration=45000, nodrain=0):
     """thousands of frames: wraps the 128-slot input ring, the 60-slot spectator ring and the
     saved-state ring many times"""
